@@ -13,6 +13,7 @@ From Anthem Require Import Base.ISet Base.Fresh Syntax.Fol Syntax.Asp
   Model.FolLex Model.FolClass
   Proofs.FreeVars Proofs.FreshNamesOk Proofs.CompletionShape Proofs.CompletionOk
   Proofs.SimplClassicTotal Proofs.ParserImage.
+From Anthem Require Model.External.
 Import ListNotations.
 Open Scope string_scope.
 Open Scope list_scope.
@@ -332,6 +333,24 @@ Proof.
       apply in_aformula_vars_atom in Hw. destruct Hw as [t [Ht Hw]].
       apply in_map_iff in Ht. destruct Ht as [x [<- Hx]]. cbn in Hw. destruct Hw as [<-|[]]. cbn.
       eapply (completion_choose_fresh_names _ "V"); [discriminate|exact Hx].
+Qed.
+
+(* the empty completed definitions appended for the missing output predicates (/repo <COMMIT-F17>) *)
+Lemma empty_definition_pi q : parser_image (External.empty_definition q).
+Proof.
+  unfold External.empty_definition. apply complete_definition_pi; [|intros F []].
+  intros w Hw. unfold hatom_formula, atomic_formula_from in Hw. cbn [hsym hargs] in Hw.
+  apply in_aformula_vars_atom in Hw. destruct Hw as [t [Ht Hw]].
+  apply in_map_iff in Ht. destruct Ht as [x [<- Hx]]. cbn in Hw. destruct Hw as [<-|[]]. cbn.
+  eapply (completion_choose_fresh_names _ "V"); [discriminate|exact Hx].
+Qed.
+Theorem completion_missing_outputs_pi G ins outs D :
+  theory_pi G -> completion G ins = Some D -> theory_pi (D ++ External.missing_output_definitions outs D).
+Proof.
+  intros HG E d Hd. apply in_app_or in Hd. destruct Hd as [Hd|Hd].
+  - exact (completion_pi G ins D HG E d Hd).
+  - unfold External.missing_output_definitions in Hd. apply in_map_iff in Hd. destruct Hd as [q [<- _]].
+    apply empty_definition_pi.
 Qed.
 
 (* ================================================================== the FOL parser's image *)
